@@ -351,12 +351,13 @@ Proof. intros r f x H. destruct r; cbn in H; try discriminate. eauto. Qed.
 
 (* the part of the session state the game-side contract depends on *)
 Record JI (w : Z) (p : p2p) (g : game) : Prop := {
-  ji_w : 1 <= w;
+  ji_w : 0 <= w;
   ji_mp : ps_maxpred p = w;
-  ji_sparse : ps_sparse p = false;
   ji_frame : gframe g = s_current (ps_sync p);
   ji_cur : 0 <= s_current (ps_sync p);
-  ji_cells : CellsI w (Z.max 0 (s_current (ps_sync p) - w)) (s_current (ps_sync p) - 1) (ps_sync p) g;
+  ji_roll : 1 <= w ->
+            ps_sparse p = false /\ s_maxpred (ps_sync p) = w /\
+            CellsI w (Z.max 0 (s_current (ps_sync p) - w)) (s_current (ps_sync p) - 1) (ps_sync p) g;
 }.
 
 Definition cells_same (s s' : sync) : Prop := s_maxpred s' = s_maxpred s /\ s_cells s' = s_cells s.
@@ -540,3 +541,714 @@ Proof.
 Qed.
 
 End Exec2.
+
+(* ================= what the bookkeeping functions leave alone ================= *)
+Definition sync_frame (s s' : sync) : Prop := cells_same s s' /\ s_current s' = s_current s.
+Definition p_frame (p p' : p2p) : Prop :=
+  ps_sparse p' = ps_sparse p /\ ps_maxpred p' = ps_maxpred p /\ sync_frame (ps_sync p) (ps_sync p').
+
+Lemma sync_frame_refl : forall s, sync_frame s s.
+Proof. intro s. repeat split. Qed.
+Lemma sync_frame_trans : forall a b c, sync_frame a b -> sync_frame b c -> sync_frame a c.
+Proof. intros a b c [[A1 A2] A3] [[B1 B2] B3]. repeat split; congruence. Qed.
+Lemma p_frame_refl : forall p, p_frame p p.
+Proof. intro p. repeat split. Qed.
+Lemma p_frame_trans : forall a b c, p_frame a b -> p_frame b c -> p_frame a c.
+Proof.
+  intros a b c (A1 & A2 & A3) (B1 & B2 & B3). split; [congruence|]. split; [congruence|].
+  eapply sync_frame_trans; eassumption.
+Qed.
+
+Lemma queue_outgoing_frame : forall p h i p', queue_outgoing p h i = Ok p' -> p_frame p p' /\ ps_sync p' = ps_sync p.
+Proof.
+  intros p h i p' H. unfold queue_outgoing in H.
+  destruct (pi_frame i =? NULL); [discriminate|].
+  destruct (ps_remotes p); inversion H; subst.
+  - split; [apply p_frame_refl|reflexivity].
+  - split; [repeat split|reflexivity].
+Qed.
+
+Lemma queue_blanks_frame : forall n p h f p', queue_blanks n p h f = Ok p' -> p_frame p p' /\ ps_sync p' = ps_sync p.
+Proof.
+  induction n as [|k IH]; intros p h f p' H; cbn [queue_blanks] in H.
+  - inversion H; subst. split; [apply p_frame_refl|reflexivity].
+  - apply res_bind_ok in H. destruct H as (p1 & E1 & H).
+    destruct (queue_outgoing_frame _ _ _ _ E1) as [F1 S1].
+    destruct (IH _ _ _ _ H) as [F2 S2]. split; [eapply p_frame_trans; eassumption|congruence].
+Qed.
+
+Lemma send_ready_go_frame : forall n p locals o p' o',
+  send_ready_go n p locals o = Ok (p', o') ->
+  p_frame p p' /\ ps_sync p' = ps_sync p /\ o_requests o' = o_requests o /\ o_spec_sends o' = o_spec_sends o.
+Proof.
+  induction n as [|k IH]; intros p locals o p' o' H; cbn [send_ready_go] in H.
+  - inversion H; subst. repeat split.
+  - destruct (next_complete p locals) as [f|]; [|inversion H; subst; repeat split].
+    destruct (assoc_get (ps_outgoing p) f) as [m|]; [|discriminate].
+    apply IH in H. destruct H as (F & S & R1 & R2).
+    cbn [with_outgoing ps_sync] in *.
+    split; [|split; [exact S|]].
+    + destruct F as (A & B & C). repeat split; cbn in *; try congruence; destruct C as [[C1 C2] C3]; congruence.
+    + destruct (existsb ev_running (ps_remotes p)); cbn [add_rsend o_requests o_spec_sends] in *; split; congruence.
+Qed.
+
+Lemma send_ready_outgoing_frame : forall p o p' o',
+  send_ready_outgoing p o = Ok (p', o') ->
+  p_frame p p' /\ ps_sync p' = ps_sync p /\ o_requests o' = o_requests o /\ o_spec_sends o' = o_spec_sends o.
+Proof.
+  intros p o p' o' H. unfold send_ready_outgoing in H.
+  destruct (ps_remotes p); [inversion H; subst; repeat split|].
+  destruct (local_handles p); [inversion H; subst; repeat split|].
+  eapply send_ready_go_frame; eassumption.
+Qed.
+
+Lemma add_local_input_frame : forall s h f v s' r, add_local_input s h f v = Ok (s', r) -> sync_frame s s' /\ f = s_current s.
+Proof.
+  intros s h f v s' r H. unfold add_local_input in H.
+  destruct (Z.eqb_spec f (s_current s)) as [E|E]; cbn [negb] in H; [|discriminate].
+  destruct ((h <? 0) || _); [discriminate|].
+  apply res_bind_ok in H. destruct H as ([q' r'] & _ & H). inversion H; subst. repeat split.
+Qed.
+
+Lemma register_go_frame : forall hs p p', register_go p hs = Ok p' -> p_frame p p'.
+Proof.
+  induction hs as [|h r IH]; intros p p' H; cbn [register_go] in H.
+  - inversion H; subst. apply p_frame_refl.
+  - destruct (assoc_get (ps_pending p) h) as [pi|]; [|discriminate].
+    apply res_bind_ok in H. destruct H as ([s' actual] & E1 & H).
+    destruct (add_local_input_frame _ _ _ _ _ _ E1) as [F1 _].
+    assert (P1 : p_frame p (with_sync p s')) by (repeat split; cbn; try apply F1; destruct F1 as [[A B] C]; auto).
+    destruct (actual =? NULL).
+    + eapply p_frame_trans; [exact P1|]. apply IH. exact H.
+    + apply res_bind_ok in H. destruct H as (p2 & E2 & H).
+      apply res_bind_ok in H. destruct H as (p4 & E4 & H).
+      assert (P2 : p_frame (with_sync p s') p2).
+      { destruct (cs_last (stat_at (with_sync p s') h) =? NULL).
+        - apply queue_blanks_frame in E2. apply E2.
+        - inversion E2; subst. apply p_frame_refl. }
+      destruct (queue_outgoing_frame _ _ _ _ E4) as [P4 _].
+      eapply p_frame_trans; [exact P1|]. eapply p_frame_trans; [exact P2|].
+      eapply p_frame_trans; [|apply IH; exact H].
+      eapply p_frame_trans; [|exact P4]. repeat split; reflexivity.
+Qed.
+
+Lemma register_local_inputs_frame : forall p o p' o',
+  register_local_inputs p o = Ok (p', o') ->
+  p_frame p p' /\ o_requests o' = o_requests o /\ o_spec_sends o' = o_spec_sends o.
+Proof.
+  intros p o p' o' H. unfold register_local_inputs in H.
+  apply res_bind_ok in H. destruct H as (p1 & E1 & H).
+  apply register_go_frame in E1. apply send_ready_outgoing_frame in H. destruct H as (F & _ & R1 & R2).
+  split; [eapply p_frame_trans; eassumption|split; assumption].
+Qed.
+
+Lemma disconnect_at_frame_frame : forall p h lf p', disconnect_player_at_frame p h lf = Ok p' ->
+  p_frame p p' /\ ps_sync p' = ps_sync p.
+Proof.
+  intros p h lf p' H. unfold disconnect_player_at_frame in H.
+  destruct (kind_at p h) as [[|ep|ep]|]; try discriminate.
+  - inversion H; subst. split; [apply p_frame_refl|reflexivity].
+  - destruct (nth_error (ps_remotes p) (Z.to_nat ep)); [|discriminate].
+    inversion H; subst. destruct (lf + 1 <? s_current (ps_sync p)); split; repeat split.
+  - destruct (nth_error (ps_spectators p) (Z.to_nat ep)); [|discriminate].
+    inversion H; subst. split; repeat split.
+Qed.
+
+Lemma update_player_disconnects_frame : forall p p', update_player_disconnects p = Ok p' ->
+  p_frame p p' /\ ps_sync p' = ps_sync p.
+Proof.
+  intros p p'. unfold update_player_disconnects.
+  generalize (zrange_from 0 (Z.to_nat (ps_nplayers p))) as hs.
+  assert (G : forall hs (rp : res p2p) p0,
+             (forall q, rp = Ok q -> p_frame p0 q /\ ps_sync q = ps_sync p0) ->
+             forall p', fold_left (fun rp h => res_bind rp (fun p =>
+               let running := filter ev_running (ps_remotes p) in
+               let queue_connected := forallb (fun e => negb (cs_disc (nth (Z.to_nat h) (ev_status e) cs_default))) running in
+               let qmin0 := fold_left (fun acc e => Z.min acc (cs_last (nth (Z.to_nat h) (ev_status e) cs_default))) running I32MAX in
+               let lc := negb (cs_disc (stat_at p h)) in
+               let lmin := cs_last (stat_at p h) in
+               let qmin := if lc then Z.min qmin0 lmin else qmin0 in
+               if negb queue_connected && (lc || (qmin <? lmin)) then disconnect_player_at_frame p h qmin else Ok p)) hs rp = Ok p' ->
+             p_frame p0 p' /\ ps_sync p' = ps_sync p0).
+  { induction hs as [|h r IH]; intros rp p0 Hrp p'' H; cbn [fold_left] in H.
+    - apply Hrp. exact H.
+    - eapply IH; [|exact H]. intros q Hq.
+      apply res_bind_ok in Hq. destruct Hq as (p1 & E1 & Hq). destruct (Hrp p1 E1) as [F1 S1].
+      cbv zeta in Hq.
+      match type of Hq with (if ?c then _ else _) = _ => destruct c end.
+      + destruct (disconnect_at_frame_frame _ _ _ _ Hq) as [F2 S2].
+        split; [eapply p_frame_trans; eassumption|congruence].
+      + inversion Hq; subst. split; assumption. }
+  intros hs H. eapply (G hs (Ok p) p); [|exact H].
+  intros q Hq. inversion Hq; subst. split; [apply p_frame_refl|reflexivity].
+Qed.
+
+Lemma spec_send_go_frame : forall n p cf o p' o',
+  spec_send_go n p cf o = Ok (p', o') ->
+  p_frame p p' /\ ps_sync p' = ps_sync p /\ o_requests o' = o_requests o.
+Proof.
+  induction n as [|k IH]; intros p cf o p' o' H; cbn [spec_send_go] in H.
+  - inversion H; subst. repeat split.
+  - destruct (cf <? ps_next_spec p); [inversion H; subst; repeat split|].
+    apply res_bind_ok in H. destruct H as (ins & _ & H).
+    destruct (negb _); [discriminate|]. destruct (negb _); [discriminate|].
+    apply IH in H. destruct H as (F & S & R). cbn [with_next_spec ps_sync] in *.
+    split; [|split; [exact S|]].
+    + destruct F as (A & B & C). repeat split; cbn in *; try congruence; destruct C as [[C1 C2] C3]; congruence.
+    + destruct (existsb _ _); cbn [add_ssend o_requests] in R; exact R.
+Qed.
+
+Lemma send_spectators_frame : forall p cf o p' o',
+  send_confirmed_inputs_to_spectators p cf o = Ok (p', o') ->
+  p_frame p p' /\ ps_sync p' = ps_sync p /\ o_requests o' = o_requests o.
+Proof.
+  intros p cf o p' o' H. unfold send_confirmed_inputs_to_spectators in H.
+  destruct (ps_spectators p); [inversion H; subst; repeat split|].
+  eapply spec_send_go_frame; eassumption.
+Qed.
+
+Lemma set_last_confirmed_frame_frame : forall s f sp s', set_last_confirmed_frame s f sp = Ok s' -> sync_frame s s'.
+Proof.
+  intros s f sp s' H. unfold set_last_confirmed_frame in H.
+  destruct (negb _); [discriminate|]. inversion H; subst. repeat split.
+Qed.
+
+Section Exec3.
+Variable predict : Z -> Z.
+
+Definition loads_in_window (w c : Z) (R : list request) : Prop :=
+  forall r, In r R -> match r with RLoad f => c - w <= f < c | _ => True end.
+
+Lemma handle_rollback_exec : forall p cf o p' o' g w hi,
+  handle_rollback_and_save predict p cf o = Ok (p', o') -> ps_sparse p = false ->
+  0 <= w -> s_maxpred (ps_sync p) = w -> gframe g = s_current (ps_sync p) -> 0 <= s_current (ps_sync p) ->
+  s_current (ps_sync p) - 1 <= hi <= s_current (ps_sync p) ->
+  CellsI w (Z.max 0 (s_current (ps_sync p) - w)) hi (ps_sync p) g ->
+  exists R g',
+    o_requests o' = o_requests o ++ R /\ o_remote_sends o' = o_remote_sends o /\ o_spec_sends o' = o_spec_sends o /\
+    exec w g R = Some g' /\ gframe g' = s_current (ps_sync p) /\
+    s_current (ps_sync p') = s_current (ps_sync p) /\
+    CellsI w (Z.max 0 (s_current (ps_sync p) - w)) (s_current (ps_sync p)) (ps_sync p') g' /\
+    ps_sparse p' = false /\ ps_maxpred p' = ps_maxpred p /\ s_maxpred (ps_sync p') = w /\
+    loads_in_window w (s_current (ps_sync p)) R.
+Proof.
+  intros p cf o p' o' g w hi H Hsp Hw Hmp Hgf Hc0 Hhi Hcells.
+  unfold handle_rollback_and_save in H.
+  set (c := s_current (ps_sync p)) in *.
+  apply res_bind_ok in H. destruct H as ([p1 o1] & E1 & H).
+  (* the optional rollback *)
+  assert (Hrb : exists R1 g1,
+     o_requests o1 = o_requests o ++ R1 /\ o_remote_sends o1 = o_remote_sends o /\ o_spec_sends o1 = o_spec_sends o /\
+     exec w g R1 = Some g1 /\ gframe g1 = c /\ s_current (ps_sync p1) = c /\
+     (exists hi1, c - 1 <= hi1 <= c /\ CellsI w (Z.max 0 (c - w)) hi1 (ps_sync p1) g1) /\
+     ps_sparse p1 = false /\ ps_maxpred p1 = ps_maxpred p /\ s_maxpred (ps_sync p1) = w /\
+     loads_in_window w c R1).
+  { destruct (check_simulation_consistency (ps_sync p) (ps_disc_frame p) =? NULL).
+    - inversion E1; subst p1 o1. exists [], g. rewrite app_nil_r. cbn [exec].
+      split; [reflexivity|]. split; [reflexivity|]. split; [reflexivity|]. split; [reflexivity|].
+      split; [exact Hgf|]. split; [reflexivity|]. split; [exists hi; split; [exact Hhi|exact Hcells]|].
+      split; [exact Hsp|]. split; [reflexivity|]. split; [exact Hmp|]. intros r [].
+    - apply res_bind_ok in E1. destruct E1 as ([p2 o2] & Ea & E1). inversion E1; subst p1 o1. clear E1.
+      destruct (adjust_exec predict p _ cf o p2 o2 g w hi Ea Hsp Hw Hmp Hgf ltac:(lia) Hcells)
+        as (R & g' & A1 & A2 & A3 & A4 & A5 & A6 & A7 & A8 & A9).
+      exists R, g'. cbn [with_disc_frame ps_sync ps_sparse ps_maxpred].
+      split; [exact A1|]. split; [exact A2|]. split; [exact A3|]. split; [exact A4|]. split; [exact A5|]. split; [exact A6|].
+      split; [exists (c - 1); split; [lia|exact A7]|].
+      rewrite A8. cbn [with_sync ps_sparse ps_maxpred ps_sync].
+      split; [exact Hsp|]. split; [reflexivity|].
+      split; [destruct A7 as (M & _); exact M|]. exact A9. }
+  destruct Hrb as (R1 & g1 & B1 & B2 & B3 & B4 & B5 & B6 & (hi1 & Hhi1 & B7) & B8 & B9 & B10 & B11).
+  rewrite B8 in H.
+  apply res_bind_ok in H. destruct H as ([s2 r] & Es & H). inversion H; subst p' o'. clear H.
+  destruct (save_ok w (Z.max 0 (c - w)) hi1 (ps_sync p1) g1 B7 Hw ltac:(lia) ltac:(lia) ltac:(lia) ltac:(lia))
+    as (s2' & g2 & Es' & Ex & Hcl & Hh & Hcc & HLc & Hqs & Hls).
+  rewrite Es in Es'. inversion Es'; subst s2' r. clear Es'.
+  exists (R1 ++ [RSave c]), g2. cbn [add_req o_requests o_remote_sends o_spec_sends with_sync ps_sync ps_sparse ps_maxpred].
+  split; [rewrite B1, app_assoc, B6; reflexivity|]. split; [exact B2|]. split; [exact B3|].
+  split; [rewrite exec_app, B4; cbn [exec]; rewrite B6 in Ex; rewrite Ex; reflexivity|].
+  split; [unfold gframe; rewrite Hh; exact B5|]. split; [lia|].
+  split; [rewrite B6 in Hcl; exact Hcl|]. split; [exact B8|]. split; [exact B9|].
+  split; [destruct Hcl as (M & _); exact M|].
+  intros r0 Hin. apply in_app_or in Hin. destruct Hin as [Hin|[<-|[]]]; [apply B11; exact Hin|exact I].
+Qed.
+
+End Exec3.
+
+Section Exec4.
+Variable predict : Z -> Z.
+
+Lemma set_last_confirmed_value : forall s f s', set_last_confirmed_frame s f false = Ok s' ->
+  s_last_confirmed s' = Z.min f (s_current s).
+Proof.
+  intros s f s' H. unfold set_last_confirmed_frame in H.
+  destruct (negb _); [discriminate|]. inversion H; subst. reflexivity.
+Qed.
+
+(* one advance_frame call in rollback mode without sparse saving *)
+Lemma advance_rollback_exec : forall p o p' o' g w hi,
+  advance_rollback_frame predict p o = Ok (p', o') -> ps_sparse p = false ->
+  1 <= w -> ps_maxpred p = w -> s_maxpred (ps_sync p) = w ->
+  gframe g = s_current (ps_sync p) -> 0 <= s_current (ps_sync p) ->
+  s_current (ps_sync p) - 1 <= hi <= s_current (ps_sync p) ->
+  CellsI w (Z.max 0 (s_current (ps_sync p) - w)) hi (ps_sync p) g ->
+  exists R g' cf,
+    confirmed_frame p = Ok cf /\
+    o_requests o' = o_requests o ++ R /\ exec w g R = Some g' /\
+    gframe g' = s_current (ps_sync p') /\
+    (s_current (ps_sync p') = s_current (ps_sync p) \/ s_current (ps_sync p') = s_current (ps_sync p) + 1) /\
+    CellsI w (Z.max 0 (s_current (ps_sync p') - w)) (s_current (ps_sync p') - 1) (ps_sync p') g' /\
+    ps_sparse p' = false /\ ps_maxpred p' = w /\ s_maxpred (ps_sync p') = w /\
+    loads_in_window w (s_current (ps_sync p)) R /\
+    (* the gate: a new frame is only simulated within the window of what is confirmed *)
+    (s_current (ps_sync p') = s_current (ps_sync p) + 1 ->
+       (exists ins R0, R = R0 ++ [RAdvance ins]) /\
+       (if cf <? 0 then s_current (ps_sync p) < w else s_current (ps_sync p) - cf < w)).
+Proof.
+  intros p o p' o' g w hi H Hsp Hw Hmpp Hmp Hgf Hc0 Hhi Hcells.
+  unfold advance_rollback_frame in H.
+  set (c := s_current (ps_sync p)) in *.
+  apply res_bind_ok in H. destruct H as (cf & Ecf & H).
+  apply res_bind_ok in H. destruct H as ([p1 o1] & E1 & H).
+  destruct (handle_rollback_exec predict p cf o p1 o1 g w hi E1 Hsp ltac:(lia) Hmp Hgf Hc0 Hhi Hcells)
+    as (R1 & g1 & A1 & A2 & A3 & A4 & A5 & A6 & A7 & A8 & A9 & A10 & A11). fold c in A5, A6, A7, A11.
+  apply res_bind_ok in H. destruct H as ([p2 o2] & E2 & H).
+  destruct (send_spectators_frame _ _ _ _ _ E2) as ((F2a & F2b & F2c) & S2 & R2).
+  apply res_bind_ok in H. destruct H as (s3 & E3 & H).
+  assert (Hsp2 : ps_sparse p2 = false) by congruence. rewrite Hsp2 in E3.
+  pose proof (set_last_confirmed_frame_frame _ _ _ _ E3) as F3.
+  pose proof (set_last_confirmed_value _ _ _ E3) as V3.
+  apply res_bind_ok in H. destruct H as ([p4 o4] & E4 & H).
+  destruct (register_local_inputs_frame _ _ _ _ E4) as ((F4a & F4b & F4c) & R4 & _).
+  cbn [with_sync ps_sparse ps_maxpred ps_sync] in F4a, F4b, F4c.
+  (* the sync layer after the bookkeeping still has the cells and the current frame of p1 *)
+  assert (Hfr : sync_frame (ps_sync p1) (ps_sync p4)).
+  { eapply sync_frame_trans; [|exact F4c]. rewrite <- S2. exact F3. }
+  destruct Hfr as [Hcs4 Hcur4].
+  assert (Hcells4 : CellsI w (Z.max 0 (c - w)) c (ps_sync p4) g1) by (eapply CellsI_same; eassumption).
+  assert (Hc4 : s_current (ps_sync p4) = c) by congruence.
+  assert (Hmp4 : s_maxpred (ps_sync p4) = w) by (destruct Hcs4 as [M _]; congruence).
+  assert (Hsp4 : ps_sparse p4 = false) by congruence.
+  assert (Hmpp4 : ps_maxpred p4 = w) by congruence.
+  (* last confirmed frame of p4: queues may have changed in register, but not last_confirmed *)
+  assert (HL4 : s_last_confirmed (ps_sync p4) = Z.min cf c).
+  { (* register_local_inputs only replaces queues *)
+    clear - E4 V3 S2 A6. revert E4. unfold register_local_inputs. intro E4.
+    apply res_bind_ok in E4. destruct E4 as (pa & Ea & E4).
+    assert (G : forall hs q q', register_go q hs = Ok q' -> s_last_confirmed (ps_sync q') = s_last_confirmed (ps_sync q)).
+    { induction hs as [|h r IH]; intros q q' Hq; cbn [register_go] in Hq.
+      - inversion Hq; reflexivity.
+      - destruct (assoc_get (ps_pending q) h); [|discriminate].
+        apply res_bind_ok in Hq. destruct Hq as ([s' a] & Ex & Hq).
+        assert (s_last_confirmed s' = s_last_confirmed (ps_sync q)).
+        { unfold add_local_input in Ex. destruct (negb _); [discriminate|]. destruct (_ || _); [discriminate|].
+          apply res_bind_ok in Ex. destruct Ex as ([q1 r1] & _ & Ex). inversion Ex; reflexivity. }
+        destruct (a =? NULL).
+        + rewrite (IH _ _ Hq). cbn. exact H.
+        + apply res_bind_ok in Hq. destruct Hq as (p2' & E2' & Hq).
+          apply res_bind_ok in Hq. destruct Hq as (p4' & E4' & Hq).
+          rewrite (IH _ _ Hq).
+          destruct (queue_outgoing_frame _ _ _ _ E4') as [_ S4']. rewrite S4'. cbn [with_status ps_sync].
+          assert (ps_sync p2' = s').
+          { destruct (cs_last _ =? NULL).
+            - apply queue_blanks_frame in E2'. destruct E2' as [_ X]. exact X.
+            - inversion E2'; reflexivity. }
+          rewrite H0. exact H. } 
+    apply send_ready_outgoing_frame in E4. destruct E4 as (_ & S & _).
+    rewrite S, (G _ _ _ Ea). cbn [with_sync ps_sync]. rewrite V3, S2, A6. reflexivity. }
+  rewrite HL4, Hc4, Hmpp4 in H.
+  destruct (Z.ltb_spec (if Z.min cf c =? NULL then c else c - Z.min cf c) w) as [Hgate|Hgate].
+  - (* the new frame is simulated *)
+    apply res_bind_ok in H. destruct H as ([s5 ins] & E5 & H). inversion H; subst p' o'. clear H.
+    destruct (synchronized_inputs_sync _ _ _ _ _ E5) as (Hcs5 & Hc5 & _ & _).
+    set (g2 := mkg (g_hist g1 ++ [ins]) (g_cells g1)).
+    exists (R1 ++ [RAdvance ins]), g2, cf.
+    cbn [add_req o_requests with_pending with_sync ps_sync ps_sparse ps_maxpred advance_frame with_current s_current s_maxpred].
+    split; [exact Ecf|].
+    split; [rewrite R4, R2, A1, app_assoc; reflexivity|].
+    split; [rewrite exec_app, A4; reflexivity|].
+    split; [unfold gframe, g2; cbn [g_hist]; rewrite app_length; cbn [length]; unfold gframe in A5; lia|].
+    split; [right; lia|].
+    split.
+    { replace (s_current s5 + 1 - 1) with c by lia.
+      assert (Hc' : CellsI w (Z.max 0 (c - w)) c (advance_frame s5) g2).
+      { apply advance_cells; [eapply CellsI_same; eassumption|lia]. }
+      eapply CellsI_narrow; [exact Hc'|lia|lia]. }
+    split; [exact Hsp4|]. split; [exact Hmpp4|].
+    split; [destruct Hcs5 as [M _]; congruence|].
+    split.
+    { intros r0 Hin. apply in_app_or in Hin. destruct Hin as [Hin|[<-|[]]]; [apply A11; exact Hin|exact I]. }
+    intros _. split; [exists ins, R1; reflexivity|].
+    destruct (Z.ltb_spec cf 0) as [Hn|Hn].
+    + destruct (Z.eqb_spec (Z.min cf c) NULL) as [E|E]; unfold NULL in *; lia.
+    + destruct (Z.eqb_spec (Z.min cf c) NULL) as [E|E]; unfold NULL in *; lia.
+  - (* stalled at the prediction limit *)
+    inversion H; subst p' o'. clear H.
+    exists R1, g1, cf.
+    split; [exact Ecf|].
+    split; [rewrite R4, R2, A1; reflexivity|].
+    split; [exact A4|]. split; [rewrite A5, Hc4; reflexivity|]. split; [left; exact Hc4|].
+    split; [rewrite Hc4; eapply CellsI_narrow; [exact Hcells4|lia|lia]|].
+    split; [exact Hsp4|]. split; [exact Hmpp4|]. split; [exact Hmp4|]. split; [exact A11|].
+    intro Hs; exfalso; lia.
+Qed.
+
+End Exec4.
+
+(* ================= lockstep (max_prediction = 0) ================= *)
+Lemma confirmed_inputs_go_len : forall st f qs r, confirmed_inputs_go f qs st = Ok r -> length r = length st.
+Proof.
+  induction st as [|c st IH]; intros f qs r H.
+  - destruct qs; cbn in H; inversion H; subst; reflexivity.
+  - destruct qs as [|q qs]; cbn [confirmed_inputs_go] in H; [discriminate|].
+    destruct (cs_disc c && (cs_last c <? f)).
+    + apply res_bind_ok in H. destruct H as (r' & E & H). inversion H; subst. cbn. f_equal. eapply IH; eassumption.
+    + apply res_bind_ok in H. destruct H as (pi & _ & H). apply res_bind_ok in H. destruct H as (r' & E & H).
+      inversion H; subst. cbn. f_equal. eapply IH; eassumption.
+Qed.
+
+Lemma spec_send_go_status : forall n q c oo q' oo', spec_send_go n q c oo = Ok (q', oo') -> ps_status q' = ps_status q.
+Proof.
+  induction n as [|k IH]; intros q c oo q' oo' H; cbn [spec_send_go] in H; [inversion H; reflexivity|].
+  destruct (c <? ps_next_spec q); [inversion H; reflexivity|].
+  apply res_bind_ok in H. destruct H as (ins & _ & H). destruct (negb _); [discriminate|]. destruct (negb _); [discriminate|].
+  apply IH in H. exact H.
+Qed.
+Lemma send_spectators_status : forall p cf o p' o',
+  send_confirmed_inputs_to_spectators p cf o = Ok (p', o') -> ps_status p' = ps_status p.
+Proof.
+  intros p cf o p' o' H. unfold send_confirmed_inputs_to_spectators in H.
+  destruct (ps_spectators p); [inversion H; reflexivity|]. eapply spec_send_go_status; eassumption.
+Qed.
+
+Lemma advance_lockstep_shape : forall p o p' o',
+  advance_lockstep_frame p o = Ok (p', o') ->
+  ps_maxpred p' = ps_maxpred p /\ ps_sparse p' = ps_sparse p /\
+  exists R, o_requests o' = o_requests o ++ R /\
+    ((R = [] /\ s_current (ps_sync p') = s_current (ps_sync p)) \/
+     (exists ins p1 cf, R = [RAdvance ins] /\ s_current (ps_sync p') = s_current (ps_sync p) + 1 /\
+        Forall (fun i => snd i = Confirmed \/ snd i = Disconnected) ins /\
+        (* the frame that was simulated is at or below the confirmed frame (after this tick's
+           local inputs were registered) *)
+        confirmed_frame p1 = Ok cf /\ ps_status p1 = ps_status p' /\ s_current (ps_sync p) <= cf)).
+Proof.
+  intros p o p' o' H. unfold advance_lockstep_frame in H.
+  apply res_bind_ok in H. destruct H as ([p1 o1] & E1 & H).
+  destruct (register_local_inputs_frame _ _ _ _ E1) as ((F1a & F1b & (F1c & F1d)) & R1 & _).
+  apply res_bind_ok in H. destruct H as (cf & Ecf & H).
+  apply res_bind_ok in H. destruct H as ([p2 o2] & E2 & H).
+  apply res_bind_ok in H. destruct H as (cf2 & Ecf2 & H).
+  apply res_bind_ok in H. destruct H as ([p3 o3] & E3 & H).
+  destruct (send_spectators_frame _ _ _ _ _ E3) as ((F3a & F3b & F3c) & S3 & R3).
+  apply res_bind_ok in H. destruct H as (s4 & E4 & H). inversion H; subst p' o'. clear H.
+  pose proof (set_last_confirmed_frame_frame _ _ _ _ E4) as [_ F4].
+  cbn [with_sync ps_maxpred ps_sparse ps_sync ps_status].
+  destruct (Z.leb_spec (s_current (ps_sync p1)) cf) as [Hle|Hgt].
+  - apply res_bind_ok in E2. destruct E2 as (pis & Epis & E2). inversion E2; subst p2 o2. clear E2.
+    cbn [with_pending with_sync ps_maxpred ps_sparse ps_sync advance_frame with_current s_current ps_status] in *.
+    split; [congruence|]. split; [congruence|].
+    eexists. split; [rewrite R3; cbn [add_req o_requests]; rewrite R1; reflexivity|].
+    right. eexists; exists p1, cf. split; [reflexivity|].
+    split; [rewrite F4, S3; cbn; lia|].
+    split.
+    + apply Forall_forall. intros i Hin. apply in_map_iff in Hin. destruct Hin as (pi & <- & _).
+      destruct (pi_frame pi =? NULL); cbn; auto.
+    + split; [exact Ecf|]. split; [|lia].
+      rewrite (send_spectators_status _ _ _ _ _ E3). reflexivity.
+  - inversion E2; subst p2 o2. clear E2.
+    split; [congruence|]. split; [congruence|].
+    exists []. rewrite app_nil_r. split; [rewrite R3, R1; reflexivity|].
+    left. split; [reflexivity|]. rewrite F4, S3. exact F1d.
+Qed.
+
+(* ================= one advance_frame call ================= *)
+Section Exec5.
+Variable predict : Z -> Z.
+
+Definition no_save_load (R : list request) : Prop :=
+  forall r, In r R -> match r with RAdvance ins => Forall (fun i => snd i = Confirmed \/ snd i = Disconnected) ins | _ => False end.
+
+Lemma advance_exec : forall p p' o r g w,
+  advance predict p = Ok (p', o, r) -> JI w p g ->
+  exists g', exec w g (o_requests o) = Some g' /\ JI w p' g' /\
+    (s_current (ps_sync p') = s_current (ps_sync p) \/ s_current (ps_sync p') = s_current (ps_sync p) + 1) /\
+    loads_in_window w (s_current (ps_sync p)) (o_requests o) /\
+    (r <> AOk -> o_requests o = [] /\ p' = p) /\
+    (w = 0 -> no_save_load (o_requests o)) /\
+    (* rollback mode: the very first call starts with the save of frame 0 *)
+    (1 <= w -> r = AOk -> s_current (ps_sync p) = 0 -> exists R, o_requests o = RSave 0 :: R) /\
+    (* a new frame is simulated only as the last request, and only inside the window of what is
+       confirmed: cf = the newest frame for which every connected player's input is held *)
+    (s_current (ps_sync p') = s_current (ps_sync p) + 1 ->
+       (exists ins R0, o_requests o = R0 ++ [RAdvance ins]) /\
+       exists cf, (if w =? 0 then s_current (ps_sync p) <= cf
+                   else if cf <? 0 then s_current (ps_sync p) < w else s_current (ps_sync p) - cf < w) /\
+                  (exists q, confirmed_frame q = Ok cf /\
+                             (w = 0 -> ps_status q = ps_status p'))).
+Proof.
+  intros p p' o r g w H [Hw Hmpp Hgf Hc0 Hroll].
+  unfold advance in H.
+  destruct (negb (ps_running p)).
+  { inversion H; subst p' o r. exists g. cbn [out0 o_requests exec].
+    split; [reflexivity|]. split; [constructor; assumption|]. split; [left; reflexivity|].
+    split; [intros r0 []|]. split; [intros _; split; reflexivity|]. split; [intros _ r0 []|].
+    split; [intros _ A; discriminate|]. intro A; exfalso; lia. }
+  destruct (negb (forallb _ _)).
+  { inversion H; subst p' o r. exists g. cbn [out0 o_requests exec].
+    split; [reflexivity|]. split; [constructor; assumption|]. split; [left; reflexivity|].
+    split; [intros r0 []|]. split; [intros _; split; reflexivity|]. split; [intros _ r0 []|].
+    split; [intros _ A; discriminate|]. intro A; exfalso; lia. }
+  set (c := s_current (ps_sync p)) in *.
+  apply res_bind_ok in H. destruct H as ([p1 o1] & E1 & H).
+  apply res_bind_ok in H. destruct H as (p2 & E2 & H).
+  apply res_bind_ok in H. destruct H as ([p3 o3] & E3 & H). inversion H; subst p' o r. clear H.
+  destruct (update_player_disconnects_frame _ _ E2) as ((F2a & F2b & F2c) & S2).
+  rewrite Hmpp in *.
+  destruct (Z.eqb_spec w 0) as [Hw0|Hw0].
+  - (* lockstep *)
+    cbn [negb] in E1. rewrite andb_false_r in E1. inversion E1; subst p1 o1. clear E1.
+    destruct (advance_lockstep_shape _ _ _ _ E3) as (M1 & M2 & R & HR & Hcase).
+    cbn [out0 o_requests app] in HR.
+    assert (Hc2 : s_current (ps_sync p2) = c) by (rewrite S2; reflexivity).
+    destruct Hcase as [[-> Hcur]|(ins & pa & cf & -> & Hcur & Hst & Hcf & Hsta & Hle)].
+    + exists g. rewrite HR. cbn [exec].
+      split; [reflexivity|]. split.
+      { constructor; try assumption; try congruence. intro; lia. }
+      split; [left; congruence|]. split; [intros r0 []|]. split; [intro A; congruence|]. split; [intros _ r0 []|].
+      split; [intro A; lia|]. intro A; exfalso; lia.
+    + exists (mkg (g_hist g ++ [ins]) (g_cells g)). rewrite HR. cbn [exec exec_req].
+      split; [reflexivity|]. split.
+      { constructor; try assumption; try congruence.
+        - unfold gframe. cbn [g_hist]. rewrite app_length. cbn [length]. unfold gframe in Hgf. lia.
+        - lia.
+        - intro; lia. }
+      split; [right; congruence|]. split; [intros r0 [<-|[]]; exact I|]. split; [intro A; congruence|].
+      split; [intros _ r0 [<-|[]]; exact Hst|]. split; [intro A; lia|].
+      intros _. split; [exists ins, []; reflexivity|].
+      exists cf. split; [rewrite Hc2 in Hle; exact Hle|].
+      exists pa. split; [exact Hcf|]. intros _. exact Hsta.
+  - (* rollback *)
+    assert (Hw1 : 1 <= w) by lia. destruct (Hroll Hw1) as (Hsp & Hmp & Hcells).
+    cbn [negb] in E1. rewrite andb_true_r in E1.
+    (* the save of the very first frame *)
+    assert (Hfirst : exists R0 g0 hi,
+              o_requests o1 = R0 /\ exec w g R0 = Some g0 /\ gframe g0 = c /\ c - 1 <= hi <= c /\
+              s_current (ps_sync p1) = c /\ CellsI w (Z.max 0 (c - w)) hi (ps_sync p1) g0 /\
+              ps_sparse p1 = false /\ ps_maxpred p1 = w /\ s_maxpred (ps_sync p1) = w /\
+              (forall r0, In r0 R0 -> r0 = RSave c)).
+    { destruct (Z.eqb_spec c 0) as [Hz|Hnz].
+      - apply res_bind_ok in E1. destruct E1 as ([s1 r1] & Es & E1). inversion E1; subst p1 o1. clear E1.
+        destruct (save_ok w (Z.max 0 (c - w)) (c - 1) (ps_sync p) g Hcells Hw ltac:(lia) Hgf ltac:(lia) ltac:(lia))
+          as (s1' & g1 & Es' & Ex & Hcl & Hh & Hcc & _ & _ & _). fold c in Es', Ex, Hcl.
+        rewrite Es in Es'. inversion Es'; subst s1' r1.
+        exists [RSave c], g1, c. cbn [add_req out0 o_requests app exec with_sync ps_sync ps_sparse ps_maxpred].
+        rewrite Ex. split; [reflexivity|]. split; [reflexivity|].
+        split; [unfold gframe; rewrite Hh; exact Hgf|]. split; [lia|]. split; [exact Hcc|].
+        split; [exact Hcl|]. split; [exact Hsp|]. split; [exact Hmpp|].
+        split; [destruct Hcl as (M & _); exact M|]. intros r0 [<-|[]]. reflexivity.
+      - inversion E1; subst p1 o1. exists [], g, (c - 1). cbn [out0 o_requests exec].
+        split; [reflexivity|]. split; [reflexivity|]. split; [exact Hgf|]. split; [lia|]. split; [reflexivity|].
+        split; [exact Hcells|]. split; [exact Hsp|]. split; [exact Hmpp|]. split; [exact Hmp|]. intros r0 []. }
+    destruct Hfirst as (R0 & g0 & hi & HR0 & Ex0 & Hg0 & Hhi & Hc1 & Hcl1 & Hsp1 & Hmpp1 & Hmp1 & HR0s).
+    assert (Hc2 : s_current (ps_sync p2) = c) by (rewrite S2; exact Hc1).
+    assert (Hcl2 : CellsI w (Z.max 0 (s_current (ps_sync p2) - w)) hi (ps_sync p2) g0) by (rewrite S2, Hc1; exact Hcl1).
+    destruct (advance_rollback_exec predict p2 o1 p3 o3 g0 w hi E3 ltac:(congruence) Hw1 ltac:(congruence)
+                ltac:(rewrite S2; exact Hmp1) ltac:(rewrite Hc2; exact Hg0) ltac:(lia) ltac:(lia) Hcl2)
+      as (R & g' & cf & Acf & A2 & A3 & A4 & A5 & A6 & A7 & A8 & A9 & A10 & A11).
+    exists g'. rewrite A2, HR0, exec_app, Ex0.
+    split; [exact A3|]. split.
+    { constructor; try assumption; try congruence.
+      - destruct A5 as [A5|A5]; lia.
+      - intros _. split; [exact A7|]. split; [exact A9|]. exact A6. }
+    split; [rewrite Hc2 in A5; exact A5|].
+    split.
+    { intros r0 Hin. apply in_app_or in Hin. destruct Hin as [Hin|Hin].
+      - rewrite (HR0s r0 Hin). exact I.
+      - rewrite Hc2 in A10. apply A10. exact Hin. }
+    split; [intro A; congruence|]. split; [intro; lia|].
+    split.
+    { intros _ _ Hz. fold c in Hz.
+      destruct R0 as [|r0 R0'].
+      - exfalso. assert (Hz' : (c =? 0) = true) by lia.
+        rewrite Hz' in E1.
+        apply res_bind_ok in E1. destruct E1 as ([s1 r1] & _ & E1). inversion E1; subst p1 o1.
+        cbn [add_req out0 o_requests app] in HR0. discriminate.
+      - rewrite (HR0s r0 (or_introl eq_refl)). rewrite Hz. eexists. cbn [app]. reflexivity. }
+    intros Hadv. rewrite Hc2 in A11. destruct (A11 Hadv) as ((ins & Rr & ->) & Hgate).
+    split; [exists ins, (R0 ++ Rr); rewrite app_assoc; reflexivity|].
+    exists cf. split; [exact Hgate|].
+    exists p2. split; [exact Acf|]. intro; lia.
+Qed.
+
+End Exec5.
+
+(* ================= every operation preserves the game-side invariant ================= *)
+Lemma JI_frame : forall w p p' g, JI w p g -> p_frame p p' -> JI w p' g.
+Proof.
+  intros w p p' g [A B C D E] (F1 & F2 & (F3 & F4)).
+  constructor; try congruence; try lia.
+  intro H1. destruct (E H1) as (E1 & E2 & E3). destruct F3 as [F3a F3b].
+  split; [congruence|]. split; [congruence|]. rewrite F4. eapply CellsI_same; [exact E3|split; assumption].
+Qed.
+
+Lemma add_remote_input_frame : forall s h f v s', add_remote_input s h f v = Ok s' -> sync_frame s s'.
+Proof.
+  intros s h f v s' H. unfold add_remote_input in H. destruct (_ || _); [discriminate|].
+  apply res_bind_ok in H. destruct H as ([q' r] & _ & H). inversion H; subst. repeat split.
+Qed.
+
+Lemma ev_input_frame : forall p pl f v p', ev_input p pl f v = Ok p' -> p_frame p p'.
+Proof.
+  intros p pl f v p' H. unfold ev_input in H.
+  destruct (negb _); [discriminate|]. destruct (cs_disc _); [inversion H; subst; apply p_frame_refl|].
+  destruct (negb _); [discriminate|].
+  apply res_bind_ok in H. destruct H as (s' & E & H). inversion H; subst.
+  apply add_remote_input_frame in E. repeat split; cbn; apply E.
+Qed.
+
+Lemma ev_disconnected_frame : forall hs p p', ev_disconnected p hs = Ok p' -> p_frame p p'.
+Proof.
+  intros hs p p'. unfold ev_disconnected.
+  assert (G : forall hs (rp : res p2p) p0, (forall q, rp = Ok q -> p_frame p0 q) ->
+            forall p', fold_left (fun rp h => res_bind rp (fun p => disconnect_player_at_frame p h
+                        (if h <? ps_nplayers p then cs_last (stat_at p h) else NULL))) hs rp = Ok p' -> p_frame p0 p').
+  { induction hs0 as [|h r IH]; intros rp p0 Hrp p'' H; cbn [fold_left] in H; [apply Hrp; exact H|].
+    eapply IH; [|exact H]. intros q Hq. apply res_bind_ok in Hq. destruct Hq as (p1 & E1 & Hq).
+    apply disconnect_at_frame_frame in Hq. eapply p_frame_trans; [apply Hrp; exact E1|apply Hq]. }
+  intro H. eapply (G hs (Ok p) p); [|exact H]. intros q Hq. inversion Hq; subst. apply p_frame_refl.
+Qed.
+
+Lemma api_disconnect_frame : forall p h p' r, api_disconnect_player p h = Ok (p', r) -> p_frame p p'.
+Proof.
+  intros p h p' r H. unfold api_disconnect_player in H.
+  destruct (h <? 0); [inversion H; subst; apply p_frame_refl|].
+  destruct (kind_at p h) as [[| |]|]; try (inversion H; subst; apply p_frame_refl).
+  - destruct (cs_disc _); [inversion H; subst; apply p_frame_refl|].
+    apply res_bind_ok in H. destruct H as (q & E & H). inversion H; subst. apply disconnect_at_frame_frame in E. apply E.
+  - apply res_bind_ok in H. destruct H as (q & E & H). inversion H; subst. apply disconnect_at_frame_frame in E. apply E.
+Qed.
+
+Lemma set_queue_delay_frame : forall s h d s' fills, set_queue_delay s h d = Ok (s', fills) -> sync_frame s s'.
+Proof.
+  intros s h d s' fills H. unfold set_queue_delay in H. destruct (_ || _); [discriminate|].
+  apply res_bind_ok in H. destruct H as ([q' f] & _ & H). inversion H; subst. repeat split.
+Qed.
+
+Lemma api_set_input_delay_frame : forall p h d p' o r, api_set_input_delay p h d = Ok (p', o, r) ->
+  p_frame p p' /\ o_requests o = [].
+Proof.
+  intros p h d p' o r H. unfold api_set_input_delay in H.
+  destruct (h <? 0); [inversion H; subst; split; [apply p_frame_refl|reflexivity]|].
+  destruct (kind_at p h) as [[| |]|]; try (inversion H; subst; split; [apply p_frame_refl|reflexivity]).
+  apply res_bind_ok in H. destruct H as ([s1 fills] & E1 & H).
+  apply res_bind_ok in H. destruct H as (p2 & E2 & H).
+  apply res_bind_ok in H. destruct H as ([p3 o3] & E3 & H). inversion H; subst p' o r. clear H.
+  apply set_queue_delay_frame in E1.
+  apply send_ready_outgoing_frame in E3. destruct E3 as (F3 & _ & R3 & _).
+  assert (F2 : p_frame (with_sync p s1) p2).
+  { clear - E2. revert E2. generalize (with_sync p s1) as q0. intros q0.
+    assert (G : forall fills (rp : res p2p), (forall q, rp = Ok q -> p_frame q0 q) ->
+              forall p2, fold_left (fun rp f => res_bind rp (fun p =>
+                 if pi_frame f =? NULL then Ok p else
+                 queue_outgoing (with_status p (set_stat (ps_status p) h (mkcs (cs_disc (stat_at p h)) (pi_frame f)))) h f)) fills rp = Ok p2 ->
+              p_frame q0 p2).
+    { induction fills0 as [|f r IH]; intros rp Hrp p2' H; cbn [fold_left] in H; [apply Hrp; exact H|].
+      eapply IH; [|exact H]. intros q Hq. apply res_bind_ok in Hq. destruct Hq as (p1 & E1 & Hq).
+      destruct (pi_frame f =? NULL).
+      - injection Hq as <-. apply Hrp. exact E1.
+      - apply queue_outgoing_frame in Hq. destruct Hq as [Fq _].
+        eapply p_frame_trans; [apply Hrp; exact E1|]. eapply p_frame_trans; [|exact Fq]. repeat split. }
+    intro H. eapply (G fills (Ok q0)); [|exact H]. intros q Hq. inversion Hq; subst. apply p_frame_refl. }
+  split; [|rewrite R3; reflexivity].
+  eapply p_frame_trans; [|exact F3]. eapply p_frame_trans; [|exact F2].
+  repeat split; cbn; apply E1.
+Qed.
+
+Section Run.
+Variable predict : Z -> Z.
+
+Fixpoint exec_outs (w : Z) (g : game) (outs : list (pout * apires)) : option game :=
+  match outs with
+  | [] => Some g
+  | (o, _) :: r => match exec w g (o_requests o) with Some g' => exec_outs w g' r | None => None end
+  end.
+
+Lemma sstep_exec : forall p op sr g w,
+  sstep predict p op = Ok sr -> JI w p g ->
+  exists g', exec w g (o_requests (sr_out sr)) = Some g' /\ JI w (sr_state sr) g' /\
+    (s_current (ps_sync (sr_state sr)) = s_current (ps_sync p) \/
+     (op = SAdvance /\ s_current (ps_sync (sr_state sr)) = s_current (ps_sync p) + 1)) /\
+    loads_in_window w (s_current (ps_sync p)) (o_requests (sr_out sr)) /\
+    (w = 0 -> no_save_load (o_requests (sr_out sr))).
+Proof.
+  intros p op sr g w H J.
+  destruct op as [h v|pl f v|ep st|hs|h|h d|]; cbn [sstep] in H.
+  - destruct (api_add_local_input p h v) as [p' r] eqn:E. inversion H; subst sr. cbn [sr_out sr_state out0 o_requests exec].
+    assert (p_frame p p').
+    { unfold api_add_local_input in E. destruct (kind_at p h) as [[| |]|]; inversion E; subst; repeat split. }
+    exists g. split; [reflexivity|]. split; [eapply JI_frame; eassumption|].
+    split; [left; destruct H0 as (_ & _ & (_ & X)); exact X|]. split; [intros r0 []|intros _ r0 []].
+  - apply res_bind_ok in H. destruct H as (p' & E & H). inversion H; subst sr. cbn [sr_out sr_state out0 o_requests exec].
+    pose proof (ev_input_frame _ _ _ _ _ E) as F.
+    exists g. split; [reflexivity|]. split; [eapply JI_frame; eassumption|].
+    split; [left; destruct F as (_ & _ & (_ & X)); exact X|]. split; [intros r0 []|intros _ r0 []].
+  - inversion H; subst sr. cbn [sr_out sr_state out0 o_requests exec].
+    assert (F : p_frame p (gossip p ep st)).
+    { unfold gossip. destruct (nth_error _ _); repeat split. }
+    exists g. split; [reflexivity|]. split; [eapply JI_frame; eassumption|].
+    split; [left; destruct F as (_ & _ & (_ & X)); exact X|]. split; [intros r0 []|intros _ r0 []].
+  - apply res_bind_ok in H. destruct H as (p' & E & H). inversion H; subst sr. cbn [sr_out sr_state out0 o_requests exec].
+    pose proof (ev_disconnected_frame _ _ _ E) as F.
+    exists g. split; [reflexivity|]. split; [eapply JI_frame; eassumption|].
+    split; [left; destruct F as (_ & _ & (_ & X)); exact X|]. split; [intros r0 []|intros _ r0 []].
+  - apply res_bind_ok in H. destruct H as ([p' r] & E & H). inversion H; subst sr. cbn [sr_out sr_state out0 o_requests exec].
+    pose proof (api_disconnect_frame _ _ _ _ E) as F.
+    exists g. split; [reflexivity|]. split; [eapply JI_frame; eassumption|].
+    split; [left; destruct F as (_ & _ & (_ & X)); exact X|]. split; [intros r0 []|intros _ r0 []].
+  - apply res_bind_ok in H. destruct H as ([[p' o] r] & E & H). inversion H; subst sr. cbn [sr_out sr_state].
+    destruct (api_set_input_delay_frame _ _ _ _ _ _ E) as [F R]. rewrite R. cbn [exec].
+    exists g. split; [reflexivity|]. split; [eapply JI_frame; eassumption|].
+    split; [left; destruct F as (_ & _ & (_ & X)); exact X|]. split; [intros r0 []|intros _ r0 []].
+  - apply res_bind_ok in H. destruct H as ([[p' o] r] & E & H). inversion H; subst sr. cbn [sr_out sr_state].
+    destruct (advance_exec predict _ _ _ _ _ _ E J) as (g' & A1 & A2 & A3 & A4 & _ & A6 & _).
+    exists g'. split; [exact A1|]. split; [exact A2|].
+    split; [destruct A3 as [A3|A3]; [left; exact A3|right; split; [reflexivity|exact A3]]|].
+    split; [exact A4|exact A6].
+Qed.
+
+(* C02 (for every operation sequence, as long as no assert fires): executing the request lists of
+   all calls, in order, on the free game is always well defined, and the game-side invariant -
+   game frame = current_frame(), every cell inside the prediction window holds the state of its
+   frame on the current timeline - holds again afterwards *)
+Theorem requests_executable : forall ops p0 g0 w p outs,
+  JI w p0 g0 -> srun predict p0 ops = Ok (p, outs) ->
+  exists g, exec_outs w g0 outs = Some g /\ JI w p g.
+Proof.
+  induction ops as [|op ops IH]; intros p0 g0 w p outs J H; cbn [srun] in H.
+  - inversion H; subst. exists g0. split; [reflexivity|exact J].
+  - apply res_bind_ok in H. destruct H as (sr & E & H).
+    apply res_bind_ok in H. destruct H as ([p' outs'] & E' & H). inversion H; subst p outs. clear H.
+    destruct (sstep_exec _ _ _ _ _ E J) as (g1 & A1 & A2 & _).
+    destruct (IH _ _ _ _ _ A2 E') as (g2 & B1 & B2).
+    exists g2. cbn [exec_outs]. rewrite A1. split; assumption.
+Qed.
+
+End Run.
+
+(* the start state of a session (any kinds, endpoints, spectators, delay) satisfies the invariant *)
+Lemma JI_start : forall n w d kinds eps nspec, 0 <= w ->
+  JI w (session_start n w false d kinds eps nspec) (game0 w).
+Proof.
+  intros n w d kinds eps nspec Hw.
+  constructor; unfold session_start, p2p_new, sync_new, game0, gframe;
+    cbn [with_running ps_maxpred ps_sync ps_sparse with_queues s_current s_maxpred s_cells g_hist g_cells length Z.of_nat].
+  - exact Hw.
+  - reflexivity.
+  - reflexivity.
+  - lia.
+  - intros H1. assert (((w =? 0) && false) = false) as -> by apply andb_false_r.
+    split; [reflexivity|]. split; [reflexivity|].
+    unfold CellsI, cell_frame, cell_pos.
+    cbn [with_running ps_sync with_queues s_maxpred s_cells g_cells s_current].
+    rewrite !repeat_length.
+    split; [reflexivity|]. split; [lia|]. split; [lia|]. intros f Hf. lia.
+Qed.
